@@ -40,24 +40,28 @@ GEN = {
     "errexit": ("Gen_Semantics_errexit.cfg", 2),
     "errors": ("Gen_Semantics_errors.cfg", 2),
     "syn": ("Gen_Semantics_syn.cfg", 2),
+    # TLC simulation mode (random walks of the grow phase) for sizes beyond the exhaustive bound
+    "sim12": ("Gen_Semantics_sim12.cfg", 2),
+    "simerr": ("Gen_Semantics_simerr.cfg", 2),
 }
+SIMULATE = {"sim12": 3000, "simerr": 3000}
 
 # tier -> list of (name, K)
 PLAN = {
     "C02": {
-        "quick": {"laws": [("MC_Semantics_laws_flow.cfg", None)],
+        "quick": {"laws": [("MC_Semantics_cov.cfg", None), ("MC_Semantics_laws_all.cfg", None)],
                   "gen": [("andor", 5), ("flow", 4), ("loops", 5), ("loops2", 7), ("funcs", 4), ("case", 4)],
-                  "variants": 2, "random": (1500, 40, "c02"), "real": ("flow", 4, 60)},
-        "thorough": {"laws": [("MC_Semantics_laws_flow.cfg", None), ("MC_Semantics_laws_flow5.cfg", None)],
-                     "gen": [("andor", 7), ("flow", 5), ("loops", 6), ("loops2", 7), ("funcs", 5), ("case", 5)],
+                  "variants": 2, "random": (800, 40, "c02"), "real": ("flow", 4, 60)},
+        "thorough": {"laws": [("MC_Semantics_cov.cfg", None), ("MC_Semantics_laws_all.cfg", None), ("MC_Semantics_laws_flow5.cfg", None)],
+                     "gen": [("andor", 7), ("flow", 5), ("loops", 6), ("loops2", 7), ("funcs", 5), ("case", 5), ("sim12", 12)],
                      "variants": 3, "random": (20000, 40, "c02"), "real": ("flow", 4, 6)},
     },
     "C10": {
-        "quick": {"laws": [("MC_Semantics_laws_errors.cfg", None)],
-                  "gen": [("errexit", 4), ("errors", 4), ("syn", 5)],
-                  "variants": 2, "random": (1500, 40, "c10"), "real": ("errors", 3, 3)},
-        "thorough": {"laws": [("MC_Semantics_laws_errors.cfg", None), ("MC_Semantics_laws_errexit.cfg", None)],
-                     "gen": [("errexit", 5), ("errors", 5), ("syn", 6)],
+        "quick": {"laws": [("MC_Semantics_cov.cfg", None), ("MC_Semantics_laws_errors.cfg", None)],
+                  "gen": [("errexit", 4), ("errors", 4), ("syn", 4)],
+                  "variants": 2, "random": (600, 40, "c10"), "real": ("errors", 3, 8)},
+        "thorough": {"laws": [("MC_Semantics_cov.cfg", None), ("MC_Semantics_laws_all.cfg", None), ("MC_Semantics_laws_errors.cfg", None), ("MC_Semantics_laws_errexit.cfg", None)],
+                     "gen": [("errexit", 5), ("errors", 5), ("syn", 6), ("simerr", 10)],
                      "variants": 3, "random": (20000, 40, "c10"), "real": ("errors", 4, 40)},
     },
 }
@@ -127,10 +131,11 @@ def calibrate():
 def laws(cfg, st, workers=4, coverage=False):
     r = vlib.tlc("Gen_Semantics", cfg, workers=workers, timeout=2400, coverage=coverage)
     vlib.tlc_must_pass(r, f"laws of the specification ({cfg})")
-    st.states += r.distinct
-    st.transitions += r.generated
-    for a, c in r.coverage.items():
-        st.coverage[a] = st.coverage.get(a, 0) + c
+    with _LOCK:
+        st.states += r.distinct
+        st.transitions += r.generated
+        for a, c in r.coverage.items():
+            st.coverage[a] = st.coverage.get(a, 0) + c
     vlib.log(f"[p1] {cfg}: laws hold on {r.distinct} program prefixes ({r.wall:.1f}s)")
 
 
@@ -145,13 +150,19 @@ def _violation(rep, pid, layer, cfgname, p, f, mode, tick):
     rep.violation(key, detail, replay)
 
 
-def gen_and_replay(rep, pid, wd, name, k, st, variants, workers=4, jobs=4, mode="sim", every=1):
+def gen_and_replay(rep, pid, wd, name, k, st, variants, workers=4, jobs=4, real_every=0):
+    """Enumerate the programs of configuration `name` with size bound k (TLC),
+    replay all of them on the simulated OS and, if real_every > 0, every
+    real_every-th of them through the true entry point on the real OS."""
     cfg, tick = GEN[name]
     tmp = _cfg_with_k(cfg, k, wd)
-    gen = os.path.join(wd, f"{name}-{mode}.gen.ndjson")
-    ver = os.path.join(wd, f"{name}-{mode}.verdict.ndjson")
+    gen = os.path.join(wd, f"{name}-{k}.gen.ndjson")
     try:
-        r = vlib.tlc("Gen_Semantics", tmp, workers=workers, timeout=2400, json_out=gen)
+        if name in SIMULATE:
+            r = vlib.tlc("Gen_Semantics", tmp, workers=workers, timeout=2400, json_out=gen,
+                         simulate=SIMULATE[name], depth=60, tool_seed=vlib.seed())
+        else:
+            r = vlib.tlc("Gen_Semantics", tmp, workers=workers, timeout=2400, json_out=gen)
     finally:
         if tmp != cfg:
             try:
@@ -160,6 +171,17 @@ def gen_and_replay(rep, pid, wd, name, k, st, variants, workers=4, jobs=4, mode=
                 pass
     vlib.tlc_must_pass(r, f"program enumeration {cfg} K={k}")
     nprog = vlib.count_lines(gen)
+    with _LOCK:
+        st.states += r.distinct
+        st.transitions += r.generated
+    _replay(rep, pid, wd, name, k, st, gen, nprog, r, tick, variants, jobs, "sim", 1)
+    if real_every:
+        _replay(rep, pid, wd, name, k, st, gen, nprog, r, tick, 1, jobs, "real", real_every)
+    os.remove(gen)
+
+
+def _replay(rep, pid, wd, name, k, st, gen, nprog, r, tick, variants, jobs, mode, every):
+    ver = os.path.join(wd, f"{name}-{k}-{mode}.verdict.ndjson")
     t1 = time.time()
     vlib.run_harness(PKG, ["run", "--in", gen, "--out", ver, "--mode", mode, "--variants", variants,
                            "--jobs", jobs, "--tick", tick, "--every", every], timeout=3000)
@@ -197,8 +219,6 @@ def gen_and_replay(rep, pid, wd, name, k, st, variants, workers=4, jobs=4, mode=
                          "expected": oks[:1], "observed": {"oc": lost[i]["lost"]}}
                     nfail += 1
                     _violation(rep, pid, "P2", name, line["p"], f, mode, tick)
-        st.states += r.distinct
-        st.transitions += r.generated
         st.programs += handled
         st.runs += runs
         st.pairs_ok += pairs
@@ -206,13 +226,12 @@ def gen_and_replay(rep, pid, wd, name, k, st, variants, workers=4, jobs=4, mode=
         st.div += div
         st.unsupported += unsupported
         st.per_cfg[f"{name}/K={k}/{mode}"] = {"programs_enumerated": nprog, "programs_replayed": handled, "runs": runs,
-                                             "skipped_unspecified": unspec, "skipped_diverging": div, "mismatches": nfail,
-                                             "tlc_states": r.distinct, "tlc_s": round(r.wall, 1),
+                                             "skipped_unspecified": unspec, "skipped_diverging": div,
+                                             "mismatches": nfail, "tlc_states": r.distinct, "tlc_s": round(r.wall, 1),
                                              "harness_s": round(t2 - t1, 1)}
-        vlib.log(f"[p2] {name} K={k} {mode}: {nprog} programs enumerated by TLC ({r.wall:.1f}s), {handled} replayed, "
-                 f"{runs} runs ({t2 - t1:.1f}s), {unspec} unspecified + {div} diverging option-runs skipped, "
-                 f"{nfail} mismatching program(s)")
-    os.remove(gen)
+    vlib.log(f"[p2] {name} K={k} {mode}: {nprog} programs enumerated by TLC ({r.wall:.1f}s), {handled} replayed, "
+             f"{runs} runs ({t2 - t1:.1f}s), {unspec} unspecified + {div} diverging option-runs skipped, "
+             f"{nfail} mismatching program(s)")
     os.remove(ver)
 
 
@@ -299,14 +318,15 @@ def random_and_validate(rep, pid, wd, n, size, profile, st, jobs=4, shards=8):
     rejects, skips, wall, cnt = validate_records(recs, shards=shards)
     if cnt != total:
         raise vlib.ToolError("record files out of step")
-    for g, info in rejects:
-        rec = fulls[g]
-        f = {"e": rec["e"], "t": rec["t"], "y": rec["y"], "why": "rejected by Trace_Semantics",
-             "tag": (info or {}).get("tag", ""), "text": rec.get("text"), "flags": rec.get("flags", []),
-             "stdin": rec.get("stdin", False),
-             "expected": {"tr": (info or {}).get("tr"), "st": (info or {}).get("st")},
-             "observed": {"oc": rec["oc"], "tr": rec["tr"], "st": rec["st"], "detail": rec.get("detail", "")}}
-        _violation(rep, pid, "P3", profile, rec["p"], f, "sim", 2)
+    with _LOCK:
+        for g, info in rejects:
+            rec = fulls[g]
+            f = {"e": rec["e"], "t": rec["t"], "y": rec["y"], "why": "rejected by Trace_Semantics",
+                 "tag": (info or {}).get("tag", ""), "text": rec.get("text"), "flags": rec.get("flags", []),
+                 "stdin": rec.get("stdin", False),
+                 "expected": {"tr": (info or {}).get("tr"), "st": (info or {}).get("st")},
+                 "observed": {"oc": rec["oc"], "tr": rec["tr"], "st": rec["st"], "detail": rec.get("detail", "")}}
+            _violation(rep, pid, "P3", profile, rec["p"], f, "sim", 2)
     nskip = sum(skips.values())
     st.runs += total
     st.per_cfg[f"random/{profile}/size<={size}"] = {"records": total, "rejected": len(rejects), "skipped": skips,
@@ -330,21 +350,28 @@ def run_property(pid, tier):
     vlib.build_harness(PKG)
     calibrate()
     big = tier == "thorough"
-    # P1: laws of the specification (coverage read back on the first)
-    for i, (cfg, _) in enumerate(plan["laws"]):
-        laws(cfg, st, workers=8 if big else 6, coverage=(i == 0))
-    # P2: enumerate + replay; two configurations at a time
-    def job(item):
-        name, k = item
-        gen_and_replay(rep, pid, wd, name, k, st, plan["variants"], workers=6 if big else 4, jobs=5 if big else 4)
-    with ThreadPoolExecutor(max_workers=2) as ex:
-        list(ex.map(job, plan["gen"]))
-    # a subset through the true entry point on the real OS
-    name, k, every = plan["real"]
-    gen_and_replay(rep, pid, wd, name, k, st, 1, workers=4, jobs=6, mode="real", every=every)
-    # P3
+    # P1 (laws of the specification; action coverage read back on the first
+    # configuration), P2 (enumerate + replay) and P3 (random programs) are
+    # independent: three at a time.
     n, size, profile = plan["random"]
-    validated, skipped = random_and_validate(rep, pid, wd, n, size, profile, st, jobs=6, shards=8)
+    real_name, real_k, real_every = plan["real"]
+    res = {}
+    tasks = []
+    for i, (cfg, _) in enumerate(plan["laws"]):
+        tasks.append(lambda cfg=cfg, i=i: laws(cfg, st, workers=4, coverage=(i == 0)))
+    tasks.append(lambda: res.update(p3=random_and_validate(rep, pid, wd, n, size, profile, st, jobs=4, shards=6)))
+    gens = list(plan["gen"])
+    if (real_name, real_k) not in gens:
+        gens.append((real_name, real_k))
+    for name, k in gens:
+        tasks.append(lambda name=name, k=k: gen_and_replay(
+            rep, pid, wd, name, k, st, plan["variants"], workers=4, jobs=4,
+            real_every=real_every if (name, k) == (real_name, real_k) else 0))
+    with ThreadPoolExecutor(max_workers=3) as ex:
+        futs = [ex.submit(t) for t in tasks]
+        for f in futs:
+            f.result()
+    validated, skipped = res["p3"]
     rc = rep.finish()
     vlib.write_evidence(pid, tier, {
         "states": st.states,
